@@ -101,6 +101,7 @@ type Step struct {
 	Ctx    []CtxFn `json:"ctx,omitempty"`
 	Aggs   []Agg   `json:"aggs,omitempty"`
 	Other  int     `json:"other,omitempty"`
+	Fl     string  `json:"fl,omitempty"` // a float (scenario notation) for FloatFmt
 	Rid    BS      `json:"rid,omitempty"` // name of a row-number column the specification may use to identify rows
 	Opts   []int   `json:"opts,omitempty"`
 
